@@ -85,6 +85,8 @@ def generate(seed, tier):
         world = gen_motif_world(Rng(seed, 'motif'), tier)
     if sw.chance(.06):
         world = gen_lattice_world(Rng(seed, 'lattice'), tier)
+    if sw.chance(.05):
+        world = gen_chord_world(Rng(seed, 'chord'), tier)
     spill = sw.chance(.04)
     if spill:
         world = gen_spill_world(Rng(seed, 'spill'), tier)
@@ -272,6 +274,50 @@ def gen_lattice_world(rng, tier):
             world['cells'].append({'at': [0, 0, r, c], 'f': [
                 'op', rng.pick(['+', '+', '-']), ref(r - 1, c),
                 ref(r - 1, (c + 1) % w)]})
+    return world
+
+
+def gen_chord_world(rng, tier):
+    """One formula on two cycles: one closes through a branch of its own IF,
+    the other through a plain operand and is guarded in ANOTHER cell.  The cut
+    search asks the formula about the unguarded cycle first and about its own
+    branch later (or the other way round, depending on names)."""
+    h, w = 3, 4
+    world = {'books': [[[h, w]]], 'cells': [], 'names': []}
+    slots = [(r, c) for r in range(h) for c in range(w)]
+    rng.shuffle(slots)
+    g1, g2, b1, x1, y1, z1, d1 = slots[:7]
+
+    def ref(p):
+        return ['r', 0, 0, p[0], p[1], p[0], p[1]]
+
+    def guarded(g, val, dep):
+        closed = ['f', 'IF', ['op', '>', ref(g), ['n', 0]], ['n', val], dep]
+        k = rng.randrange(4)
+        if k == 0:
+            return ['f', 'IF', ['op', '>', ref(g), ['n', 0]], dep, ['n', val]]
+        if k == 1:
+            return ['f', 'IFERROR', ['f', 'IF', ['op', '>', ref(g), ['n', 0]],
+                                     ['n', val], ['e', '#N/A']], dep]
+        return closed
+    world['cells'].append({'at': [0, 0, g1[0], g1[1]],
+                           'v': rng.pick([0, 1, 1, 2])})
+    world['cells'].append({'at': [0, 0, g2[0], g2[1]],
+                           'v': rng.pick([0, 1, 1, 2])})
+    own = guarded(g1, 5, ref(y1))
+    other = ref(x1)
+    f = ['op', rng.pick(['+', '-', '*']), own, other] if rng.chance(.6) \
+        else ['f', 'SUM', own, other] if rng.chance(.5) \
+        else ['op', '+', other, own]
+    world['cells'].append({'at': [0, 0, b1[0], b1[1]], 'f': f})
+    world['cells'].append({'at': [0, 0, x1[0], x1[1]],
+                           'f': guarded(g2, 1, ref(b1))})
+    world['cells'].append({'at': [0, 0, y1[0], y1[1]],
+                           'f': ['op', '+', ref(z1), ['n', 1]]})
+    world['cells'].append({'at': [0, 0, z1[0], z1[1]],
+                           'f': ['op', '+', ref(b1), ['n', 1]]})
+    world['cells'].append({'at': [0, 0, d1[0], d1[1]],
+                           'f': ['op', '*', ref(b1), ['n', 2]]})
     return world
 
 
